@@ -362,7 +362,7 @@ func c42Line(c *Case, l *c42Listener, line string, f []string) string {
 		return "ok"
 	case f[0] == "idle" && len(f) == 1:
 		open := len(l.conns)
-		wait := 3*l.idle + 20*time.Millisecond
+		wait := 2*l.idle + 15*time.Millisecond
 		if l.idle > 0 && open == 0 && !l.lastZero.IsZero() {
 			wait = l.idle + 5*time.Second // it must return; waiting ends as soon as it does
 		}
@@ -516,7 +516,7 @@ func c42Storm(c *Case, kind string, nc, nk int) string {
 
 func c42Gen(g *Gen) {
 	r := g.Rng
-	n := g.N(110, 1500)
+	n := g.N(160, 2500)
 	for i := 0; i < n; i++ {
 		kind := Pick(r, []string{"unix", "unix", "tcp"})
 		idle := Pick(r, []int{20, 30, 50, 20, 30, 0})
@@ -530,6 +530,7 @@ func c42Gen(g *Gen) {
 		x := 1
 		steps := r.Range(4, 18)
 		everOpen := false
+		negIdle := 0
 		for k := 0; k < steps; k++ {
 			switch y := r.Intn(100); {
 			case y < 22 && next <= 5:
@@ -575,8 +576,9 @@ func c42Gen(g *Gen) {
 				lines = append(lines, fmt.Sprintf("close %d", c))
 				open = append(open[:j], open[j+1:]...)
 			case y < 94:
-				if len(open) > 0 || idle == 0 || !everOpen {
+				if (len(open) > 0 || idle == 0 || !everOpen) && negIdle < 2 {
 					lines = append(lines, "idle") // must keep serving
+					negIdle++
 				}
 			default:
 				lines = append(lines, "stat")
@@ -590,8 +592,9 @@ func c42Gen(g *Gen) {
 				lines = append(lines, fmt.Sprintf("recv %d", c))
 				pending[c]--
 			}
-			if len(open) > 1 && r.Chance(30) {
+			if len(open) > 1 && r.Chance(30) && negIdle < 3 {
 				lines = append(lines, "idle")
+				negIdle++
 			}
 			lines = append(lines, fmt.Sprintf("close %d", c))
 			open = append(open[:j], open[j+1:]...)
